@@ -426,6 +426,7 @@ def build_corpus(tier):
         scs += pair_scenarios()
     scs += fault_scenarios(tier)
     scs += monitor_scenarios(tier)
+    scs += suspender_scenarios(tier)
     for pn, lst in sweep(["collide", "emptysave", "ckptinb", "dupopen", "cfg", "cfginb"], ["pause", "suspend"] if quick_tier(tier) else ["pause", "suspend", "abort", "defer"],
                          ["resume"], record_intr=True):
         if isinstance(lst, dict):
@@ -452,7 +453,7 @@ def build_corpus(tier):
             key = key.rsplit("|", 1)[0]
         exp = base.get(key, []) if "|nori" not in r["id"] else base.get(key, [])
         out.append({"id": r["id"], "events": exp + r["events"], "outcomes": r["outcomes"], "final": r["final"],
-                    "conf": r["id"].split("|")[0] not in NOT_CONFORMANCE})
+                    "conf": r["id"].split("|")[0] not in NOT_CONFORMANCE and not r["id"].startswith("sus:")})
     return {"traces": out, "wall": time.time() - t0}
 
 
@@ -513,6 +514,47 @@ def monitor_scenarios(tier):
                 if kind == "suspend":
                     inj.append({"at": q + 2, "kind": "release", "arg": "f1"})
                 out.append(with_inject(base, inj, ["resume"] * 3, f"{kind}@{p}+update@{q}"))
+    return out
+
+
+def suspender_scenarios(tier):
+    """real SuspendBoolHigh suspenders on fake signals: pre-tripped at plan start, tripped / released / removed at every
+    scheduling point, removed twice, signal changes after removal, two suspenders tripping together"""
+    out = []
+    quick = tier == "quick"
+    sus = {"s1": {"signal": "sig1"}, "s2": {"signal": "sig2"}}
+
+    def mk(plan, tag, signals, before, inj, timeout=6):
+        sc = base_scenario(plan)
+        sc.update({"id": f"sus:{plan}|{tag}", "signals": signals, "suspenders": sus, "before": before, "inject": inj,
+                   "decisions": ["resume"] * 3, "timeout": timeout})
+        return sc
+
+    for plan in (("simple",) if quick else ("simple", "move", "two")):
+        n = run_one(base_scenario(plan))["points"] + 4
+        # A. tripped before the plan starts: released by the signal / by removal at every point (point 1.. are 'blocked' points)
+        for p in range(0, 2):
+            out.append(mk(plan, f"pre-tripped,put0@{p}", {"sig1": 0, "sig2": 0}, [["sig_put", "sig1", 1], ["sus_install", "s1", 0]],
+                          [{"at": p, "kind": "sig_put", "arg": "sig1", "value": 0}]))
+            out.append(mk(plan, f"pre-tripped,remove@{p}", {"sig1": 0, "sig2": 0}, [["sig_put", "sig1", 1], ["sus_install", "s1", 0]],
+                          [{"at": p, "kind": "sus_remove", "arg": "s1"}, {"at": p + 2, "kind": "sus_remove", "arg": "s1"},
+                           {"at": p + 3, "kind": "sig_put", "arg": "sig1", "value": 1}]))
+        # B. trips while running, then release / removal; a removed suspender must not react any more
+        for p in range(n):
+            for d in ((2,) if quick else (1, 2, 4)):
+                out.append(mk(plan, f"trip@{p},put0@{p + d}", {"sig1": 0, "sig2": 0}, [["sus_install", "s1", 0]],
+                              [{"at": p, "kind": "sig_put", "arg": "sig1", "value": 1}, {"at": p + d, "kind": "sig_put", "arg": "sig1", "value": 0}]))
+                out.append(mk(plan, f"trip@{p},remove@{p + d}", {"sig1": 0, "sig2": 0}, [["sus_install", "s1", 0]],
+                              [{"at": p, "kind": "sig_put", "arg": "sig1", "value": 1}, {"at": p + d, "kind": "sus_remove", "arg": "s1"},
+                               {"at": p + d + 1, "kind": "sus_remove", "arg": "s1"}, {"at": p + d + 2, "kind": "sig_put", "arg": "sig1", "value": 0},
+                               {"at": p + d + 3, "kind": "sig_put", "arg": "sig1", "value": 1}]))
+            # C. a second suspender trips right after the first one's request has landed (state 'suspending')
+            out.append(mk(plan, f"trip-then-trip@{p}", {"sig1": 0, "sig2": 0}, [["sus_install", "s1", 0], ["sus_install", "s2", 0]],
+                          [{"at": p, "kind": "sig_put", "arg": "sig1", "value": 1}, {"at": p + 1, "kind": "sig_put", "arg": "sig2", "value": 1},
+                           {"at": p + 5, "kind": "sig_put", "arg": "sig1", "value": 0}, {"at": "blocked", "kind": "sig_put", "arg": "sig2", "value": 0}]))
+            out.append(mk(plan, f"trip2@{p}", {"sig1": 0, "sig2": 0}, [["sus_install", "s1", 0], ["sus_install", "s2", 0]],
+                          [{"at": p, "kind": "sig_put", "arg": "sig1", "value": 1}, {"at": p, "kind": "sig_put", "arg": "sig2", "value": 1},
+                           {"at": p + 2, "kind": "sig_put", "arg": "sig1", "value": 0}, {"at": p + 5, "kind": "sig_put", "arg": "sig2", "value": 0}]))
     return out
 
 
